@@ -41,6 +41,8 @@ pub struct BlkSpec {
     /// which flag the CBranch tests / whether it is negated (only used by CBranch ends)
     pub cond: u8,
     pub end: End,
+    /// a call end is preceded by a conditional jump to this block (conditional call: the call is the second jump)
+    pub cond_call: Option<usize>,
 }
 
 #[derive(Clone, Debug, PartialEq, Eq, Hash)]
@@ -73,6 +75,8 @@ pub struct Profile<'a> {
     /// with a PLT entry and an external thunk for the same function has) with the given probability (of 256)
     pub dup_names: &'a [&'a str],
     pub p_dup: u16,
+    /// probability (of 256) that a call to an extern or internal function is a conditional call `[CBranch, Call]`
+    pub p_cond_call: u16,
 }
 
 fn weighted(t: &mut Tape, w: &[u32]) -> usize {
@@ -158,7 +162,8 @@ pub fn decode_prog(t: &mut Tape, p: &Profile) -> ProgSpec {
                 7 => End::CallOther { ret: ret_site(t) },
                 _ => End::Return,
             };
-            blocks.push(BlkSpec { ndefs, cond, end });
+            let cond_call = if matches!(end, End::CallExt { .. } | End::CallInt { .. }) && t.prob(p.p_cond_call) { Some(t.below(nb)) } else { None };
+            blocks.push(BlkSpec { ndefs, cond, end, cond_call });
         }
         subs.push(SubSpec { name, blocks });
     }
@@ -213,6 +218,10 @@ pub fn build(spec: &ProgSpec) -> Project {
                 End::CallOther { ret } => vec![irb::jmp(jt(0), Jmp::CallOther { description: "other".into(), return_: ret.map(bt) })],
                 End::Return => vec![irb::jmp(jt(0), Jmp::Return(irb::evar(&irb::var("RAX", 8))))],
             };
+            let mut jmps = jmps;
+            if let Some(x) = bs.cond_call {
+                jmps.insert(0, irb::jmp(jt(2), Jmp::CBranch { target: bt(x), condition: cond_expr(bs.cond) }));
+            }
             let mut blk = irb::blk(irb::blk_tid(a), defs, jmps);
             if let End::BranchInd(ts) = &bs.end {
                 blk.term.indirect_jmp_targets = ts.iter().map(|x| bt(*x)).collect();
